@@ -78,7 +78,16 @@ func genC13(t *rapid.T) bson.D {
 	skip := rapid.IntRange(0, 6).Draw(t, "skip")
 	limit := rapid.IntRange(0, 6).Draw(t, "limit")
 	dpath := rapid.SampledFrom([]string{"a", "b", "c", "a.b", "a.c", "_id", "a.0"}).Draw(t, "dpath")
-	return bson.D{{Key: "docs", Value: docs}, {Key: "filter", Value: filter}, {Key: "sort", Value: sortDoc}, {Key: "skip", Value: int32(skip)}, {Key: "limit", Value: int32(limit)}, {Key: "dpath", Value: dpath}}
+	// the natural order must survive deletions: remove some documents after
+	// the inserts (and put one of them back, which moves it to the end)
+	deleted := bson.A{}
+	if n >= 3 && rapid.IntRange(0, 2).Draw(t, "del") > 0 {
+		for i, k := 0, rapid.IntRange(1, 3).Draw(t, "ndel"); i < k; i++ {
+			deleted = append(deleted, int32(rapid.IntRange(0, n-1).Draw(t, "delid")))
+		}
+	}
+	reinsert := len(deleted) > 0 && rapid.IntRange(0, 3).Draw(t, "reins") == 0
+	return bson.D{{Key: "deleted", Value: deleted}, {Key: "reinsert", Value: reinsert}, {Key: "docs", Value: docs}, {Key: "filter", Value: filter}, {Key: "sort", Value: sortDoc}, {Key: "skip", Value: int32(skip)}, {Key: "limit", Value: int32(limit)}, {Key: "dpath", Value: dpath}}
 }
 
 // refSortKey returns the reference sort key of doc for one sort field or
@@ -156,11 +165,43 @@ func runC13(c bson.D, x *Ctx) (err error) {
 	defer engine.Close()
 	ctx := context.Background()
 	coll := client.Database("db").Collection("c")
-	var all []bson.D
+	var all []bson.D // natural order
+	byID := map[int32]bson.D{}
 	for _, d := range docs {
 		all = append(all, asD(d))
+		id, _ := asD(d)[0].Value.(int32)
+		byID[id] = asD(d)
 		if _, e := coll.InsertOne(ctx, asD(d)); e != nil {
 			return fmt.Errorf("harness: insert failed: %v", e)
+		}
+	}
+	gone := map[int32]bool{}
+	for _, dv := range asA(getD(c, "deleted")) {
+		id, _ := dv.(int32)
+		if gone[id] {
+			continue
+		}
+		r, e := coll.DeleteOne(ctx, bson.D{{Key: "_id", Value: id}})
+		if e != nil || r.DeletedCount != 1 {
+			return fmt.Errorf("DeleteOne({_id: %d}) = %v, %v", id, r, e)
+		}
+		gone[id] = true
+		for i, d := range all {
+			if did, _ := d[0].Value.(int32); did == id {
+				all = append(all[:i:i], all[i+1:]...)
+				break
+			}
+		}
+		x.Class("setup-with-deletions")
+	}
+	if asB(getD(c, "reinsert")) {
+		for _, dv := range asA(getD(c, "deleted")) {
+			id, _ := dv.(int32)
+			if _, e := coll.InsertOne(ctx, byID[id]); e != nil {
+				return fmt.Errorf("re-inserting the deleted document %d failed: %v", id, e)
+			}
+			all = append(all, byID[id])
+			break
 		}
 	}
 	// F: matching documents in insertion order
@@ -192,7 +233,7 @@ func runC13(c bson.D, x *Ctx) (err error) {
 	}
 	for i, d := range unsorted {
 		// returned documents are the stored ones
-		if !bytesEq(d, all[idsOf(unsorted)[i]]) {
+		if !bytesEq(d, byID[idsOf(unsorted)[i]]) {
 			return fmt.Errorf("Find returned a document that differs from the inserted one: %s", show(d))
 		}
 	}
